@@ -528,10 +528,22 @@ func decorate(rng *rand.Rand, src string, density float64) string {
 
 // strayAfterEnd appends stray tokens after one `end` line (the known defect class).
 func strayAfterEnd(rng *rand.Rand, src string) (string, bool) {
+	return strayAfter(rng, src, func(t string) bool { return t == "end" })
+}
+
+// strayAfterLine appends stray tokens after one block header / else / statement line.
+// Most such texts are rejected; an accepted one must still keep all its tokens when formatted.
+func strayAfterLine(rng *rand.Rand, src string) (string, bool) {
+	return strayAfter(rng, src, func(t string) bool {
+		return t != "" && t != "end" && !strings.Contains(t, "//") && !strings.HasSuffix(t, "[") && !strings.HasSuffix(t, "{")
+	})
+}
+
+func strayAfter(rng *rand.Rand, src string, pick func(trimmed string) bool) (string, bool) {
 	lines := strings.Split(src, "\n")
 	var idx []int
 	for i, ln := range lines {
-		if strings.TrimSpace(ln) == "end" {
+		if pick(strings.TrimSpace(ln)) {
 			idx = append(idx, i)
 		}
 	}
@@ -539,7 +551,7 @@ func strayAfterEnd(rng *rand.Rand, src string) (string, bool) {
 		return src, false
 	}
 	i := idx[rng.Intn(len(idx))]
-	lines[i] += " " + []string{"garbage", "1 2 3", `"text"`, "end", "print 1", "x := 1", "+ - *", "garbage // with comment"}[rng.Intn(8)]
+	lines[i] += " " + []string{"garbage", "1 2 3", `"text"`, "end", "print 1", "x := 1", "+ - *", "garbage // with comment", ")", "]"}[rng.Intn(10)]
 	return strings.Join(lines, "\n"), true
 }
 
@@ -632,6 +644,11 @@ func fmtInputs(cfg Config, nGen int, withStray bool) []fmtInput {
 		if withStray && i%10 == 9 {
 			if s, ok := strayAfterEnd(cfg.Rng, src); ok {
 				ins = append(ins, fmtInput{s, "generated-stray-after-end"})
+			}
+		}
+		if withStray && i%5 == 2 {
+			if s, ok := strayAfterLine(cfg.Rng, src); ok {
+				ins = append(ins, fmtInput{s, "generated-stray-after-line"})
 			}
 		}
 	}
